@@ -10,7 +10,7 @@ use crate::blockchain::proto::script::EvaluatedScript;
 
 fn hexd(n: u8) -> u8 { if n < 10 { b'0' + n } else { b'a' + (n - 10) } }
 
-//@ id=C16,C14 tier=thorough name=c16_print_lines timeout=5400 role=print_lines bound=1-block,2-txs-x-2-outputs:(OP_RETURN-a,P2PKH),(OP_RETURN-empty,OP_RETURN-b) mem=20 fn=OpReturn::on_block
+//@ id=C16,C14 tier=extra name=c16_print_lines timeout=5400 role=print_lines bound=1-block,2-txs-x-2-outputs:(OP_RETURN-a,P2PKH),(OP_RETURN-empty,OP_RETURN-b) mem=20 fn=OpReturn::on_block
 #[kani::proof]
 #[kani::unwind(70)]
 fn c16_print_lines() {
